@@ -32,6 +32,35 @@ CLAIMS = {
          "non-convertible elements sharing a sort key (known finding D5, negation proved); "
          "ordering/uniqueness of the non-numeric part of the normal form is checked by the oracle, not proved.",
          "6 C07", NOTE),
+ "C20": ("Lean 4 proof by kernel evaluation (decide +kernel, no axioms) of the registry model replaying the translated predefined.py, against a hand-written SI reference table; exhaustive correspondence",
+         "Gen/Catalogue.lean, Gen/Prefixes.lean, Gen/DocTables.lean are regenerated from predefined.py / si_prefixes.py on every run. "
+         "Theorems (Props/C20.lean): the script replays without rejection; EVERY unit of Ref/SIRef.lean (110 linear units) exists, is in "
+         "the type of its dimension and has exactly its SI / yard-pound / IEC scale; no unit outside the table; every type has its SI "
+         "dimension; derived reference units are products of base reference units; every SI prefix is its power of ten; DataVolume quantum "
+         "= 1 bit; every one of the 97 documentation rows equals the computed scale and the documentation is complete; temperature "
+         "fixed-point rows. Lifted to all amounts by C01. Correspondence: after import quantity.predefined the real directories, every "
+         "unit's class/scale/quantum and conversions (quick: sample of ordered pairs per type; thorough: all) are compared with model and table.",
+         "6 C20", NOTE + "Ref/SIRef.lean (hand-written from the SI and the 1959 yard-pound agreement) is trusted."),
+ "C01": ("Lean 4 proof (conversion theorems over the quantity model) + differential correspondence incl. all ordered unit pairs per predefined type",
+         "Theorems (Props/C01.lean), for ALL amounts and any two units of one type with non-zero scales: convert multiplies by exactly "
+         "the ratio of scales; converted == original; converting back returns the identical amount; via any intermediate unit == direct; "
+         "other type => IncompatibleUnitsError; with a quantum the exact value is rounded exactly once. Scales are what definitions "
+         "denote (C15/C20/C07). Correspondence: predefined catalogue (every ordered pair of every type there-and-back in one process) and "
+         "random user histories (scaled / term-defined / derived units), Decimal and Fraction amounts; the implementation side asserts "
+         "type(amount) in (Decimal, Fraction) on every result.",
+         "6 C01", NOTE),
+ "C03": ("Lean 4 proof (operator dispatch and sum value over the quantity model) + differential correspondence",
+         "Theorems (Props/C03.lean): different types => +,- and the four order comparisons raise IncompatibleUnitsError and == is False, for all "
+         "amounts and units; same type => result in the left operand's unit with exactly the sum/difference (reference value = sum of "
+         "reference values, hence commutative/associative/inverse/distributive by value). Quantity vs plain object (10 kinds, both orders): "
+         "TypeError / == False — tied by correspondence. sum() without start value = fold of +.",
+         "6 C03", NOTE),
+ "C04": ("Lean 4 proof (comparison = comparison of exact reference values, positive scales) + differential correspondence",
+         "Theorems (Props/C04.lean): for all amounts and any two units of one type: == is equality of reference values (non-zero scales); "
+         "each of <,<=,>,>= returns what it returns on the reference values (positive scales), whatever the units; trichotomy; units compare "
+         "by scale. Partial: for a unit with NEGATIVE scale the statement is false of the code (known finding D6, negation proved). "
+         "Correspondence: equal-by-construction amounts across units, zero/negative equal amounts, near-ties, Decimal vs Fraction.",
+         "6 C04", NOTE),
 }
 
 def main():
